@@ -158,6 +158,11 @@ public class BigZ {
         }
         return true;
     }
+    public static Value ZNextPrime(Value av) {
+        BigInteger x = Z(av).add(BigInteger.ONE);
+        while (!isPrime(x)) x = x.add(BigInteger.ONE);
+        return S(x);
+    }
     public static Value ZFac(Value nv) {
         int n = I(nv);
         return S(prod(1, n));
